@@ -142,14 +142,16 @@ def replay_dl_sound_cmd(es, n):
   return bad
 
 
-def differences_sound(rec, seed, q, max_diff, with_history=True):
+def differences_sound(rec, seed, q, max_diff, with_history=True, nkeys=2):
+  import re  # pylint: disable=g-import-not-at-top
   pb, ec_util, util, sigc, hnp, cr50 = _mods()
   Model = c10.make_model(ec_util, q)
   rec.functions('paranoid_crypto.lib.ec_util:EcCurve.BatchDLOfDifferences')
-  rec.bounds('cyclic group of prime order %d; two arbitrary keys and one '
-             'history key (exponents symbolic in [1, q)); look-up table '
+  rec.bounds('cyclic group of prime order %d; %d arbitrary keys%s (exponents '
+             'symbolic in [1, q), duplicates included); look-up table '
              'havocked; every relation text produced is captured through its '
-             'format arguments' % q)
+             'format arguments and tied to the key it is reported for' %
+             (q, nkeys, ' and one history key' if with_history else ''))
   cexs = []
   done = 0
 
@@ -157,16 +159,16 @@ def differences_sound(rec, seed, q, max_diff, with_history=True):
     c = Model()
     c._table = HavocTable(max_diff)
     c._table_size = max_diff + 1000
-    ds = [ivar(e, 'd%d' % i, lo=1, hi=q) for i in range(3)]
+    ds = [ivar(e, 'd%d' % i, lo=1, hi=q) for i in range(nkeys + 1)]
     e.notes['ds'] = ds
     e.notes['format_placeholder_in'] = {'BatchDLOfDifferences'}
     pts = [Model.enc(x) for x in ds]
     e.notes['pts'] = pts
     if not with_history:
-      return c.BatchDLOfDifferences(pts[:2], None, max_diff)
-    return c.BatchDLOfDifferences(pts[:2], [pts[2]], max_diff)
+      return c.BatchDLOfDifferences(pts[:nkeys], None, max_diff)
+    return c.BatchDLOfDifferences(pts[:nkeys], [pts[nkeys]], max_diff)
 
-  for p in pysym.explore(run, max_paths=6000):
+  for p in pysym.explore(run, max_paths=20000):
     e = p.eng
     rec.path(p.kind)
     if p.kind != 'return':
@@ -175,14 +177,27 @@ def differences_sound(rec, seed, q, max_diff, with_history=True):
       continue
     ds = e.notes['ds']
     args = e.notes.get('format_args', [])
-    nrel = sum(1 for r_ in p.value if r_ is not None)
-    goal = z3.BoolVal(len(args) % 3 == 0 and (len(args) > 0) == (nrel > 0))
-    for k in range(0, len(args) - 2, 3):
-      qx, qy, dl = args[k], args[k + 1], args[k + 2]
+    goal = z3.BoolVal(len(p.value) == nkeys)
+    for i, r_ in enumerate(p.value):
+      if r_ is None:
+        continue
+      mt = re.match(r'key - \(([0-9a-f]+), ([0-9a-f]+)\) = (-?\d+) \* G$',
+                    str(r_))
+      if not mt or i >= nkeys:
+        goal = z3.BoolVal(False)
+        continue
+      ix, iy, il = int(mt.group(1), 16), int(mt.group(2), 16), int(
+          mt.group(3))
+      qx, qy, dl = (pysym.format_arg(e, ix), pysym.format_arg(e, iy),
+                    pysym.format_arg(e, il))
       # exponent of the recorded point Q = (qx, qy)
       eq = z3.If(qy == 1, qx, q - qx)
-      # some key P of the batch satisfies P - Q = dl * G
-      goal = z3.And(goal, z3.Or([(d.t - eq - dl) % q == 0 for d in ds[:2]]))
+      # the key the relation is reported for satisfies key - Q = dl * G, and
+      # Q is another artifact of the batch (or of the history)
+      goal = z3.And(goal, (ds[i].t - eq - dl) % q == 0,
+                    z3.Or([z3.And((eq - d.t) % q == 0)
+                           for k, d in enumerate(ds) if k != i and (
+                               with_history or k < nkeys)]))
     r, m, _ = e.prove(goal)
     if r == 'proved':
       rec.obligation('proved')
@@ -194,7 +209,7 @@ def differences_sound(rec, seed, q, max_diff, with_history=True):
   rec.sample(dict(fn='BatchDLOfDifferences', q=q, paths=done))
   rec.reach(1, 1 if done else 0)
   for cex in cexs[:2]:
-    ds = [cex['d%d' % i] for i in range(3)]
+    ds = [cex['d%d' % i] for i in range(nkeys + 1)]
     bad, detail = replay_diff_sound(ds, max_diff)
     rec.replayed()
     rec.violation('ec_util.EcCurve.BatchDLOfDifferences', 'unsound_relation',
@@ -211,15 +226,30 @@ def replay_diff_sound(ds, max_diff):
   c = ec_util.EcCurve('replay', int(c0.a), int(c0.b), int(c0.mod),
                       int(c0.g[0]), int(c0.g[1]), int(c0.n))
   qn = int(c.n)
-  batches = [[int(d) % qn or 1 for d in ds]]
+  ds = [int(d) for d in ds]
+  nk = len(ds) - 1
+  batches = [[d % qn or 1 for d in ds]]
+  # the counterexample's shape (equalities and small differences between
+  # the exponents of the toy group) transferred to the real curve
+  order = sorted(set(ds))
+  big = {}
+  for rank, v in enumerate(order):
+    prev = order[rank - 1] if rank else None
+    if prev is not None and v - prev <= max_diff + 1:
+      big[v] = big[prev] + (v - prev)
+    else:
+      big[v] = 2**100 * (rank + 1) + 12345
+  batches.append([big[d] for d in ds])
   for base in (5, 2**100 + 3, qn - 9):
     for dd in (1, 2, max_diff - 1, max_diff, max_diff + 1):
-      batches.append([base, base + dd, base + 2 * dd + 1])
-      batches.append([base + dd, base, base])
+      batches.append(([base, base + dd, base + 2 * dd + 1] * nk)[:nk + 1])
+      batches.append(([base + dd, base, base] * nk)[:nk + 1])
+      batches.append(([base, base, base + 7 * max_diff, base + 7 * max_diff +
+                       dd] * nk)[:nk + 1])
   for b in batches:
     pts = [c.Multiply(c.g, x % qn) for x in b]
     try:
-      res = c.BatchDLOfDifferences(pts[:2], [pts[2]], int(max_diff))
+      res = c.BatchDLOfDifferences(pts[:nk], [pts[nk]], int(max_diff))
     except Exception as ex:  # pylint: disable=broad-except
       return True, 'raised %r' % (ex,)
     for i, r_ in enumerate(res):
@@ -502,6 +532,20 @@ def jobs(tier, seed):
     out.append(Job('differences_sound_md%d' % md, differences_sound,
                    dict(q=65521, max_diff=md, with_history=False),
                    timeout=3000, cost=60))
+  if thorough:
+    out.append(Job('differences_sound_k3', differences_sound,
+                   dict(q=65521, max_diff=2, with_history=False, nkeys=3),
+                   timeout=3000, cost=300))
+  # exact look-up table, keys close together: every relation text is true for
+  # the key it is recorded for (shared with C10's completeness job)
+  out.append(Job('differences_relation_L3_hist', c10.differences,
+                 dict(q=65521, max_diff=2, L=3, with_history_list=True,
+                      aspects=('relation',)),
+                 timeout=3000, cost=300))
+  out.append(Job('differences_relation_L3', c10.differences,
+                 dict(q=65521, max_diff=3, L=3, with_history_list=False,
+                      aspects=('relation',)),
+                 timeout=3000, cost=100))
   if thorough:
     out.append(Job('differences_sound_hist_md2', differences_sound,
                    dict(q=65521, max_diff=2, with_history=True),
